@@ -34,7 +34,7 @@ ASSUMPTIONS = [
 ]
 
 
-def check(run, P):
+def _check_main(run, P):
     classes = sm.statement_classes(P)
 
     run.rule("C08.reads",
@@ -685,3 +685,9 @@ def _target_positions(target, it, pos):
             for i, e in enumerate(target.elts):
                 if isinstance(e, ast.Name):
                     pos[e.id] = i
+
+
+def check(run, P):
+    _check_main(run, P)
+    from . import generic
+    generic.lints(run, P, "C08")
